@@ -357,7 +357,20 @@ def build_enum(spec):
         vals[v] = (name, synt) if synt is not None else name
     if spec.get("missing"):
         vals[PPEnumFieldType.MISSING] = tuple(spec["missing"])
+    if spec.get("user_default") == "name":
+        return NameFirstEnumType(vals)
     return PPEnumFieldType(vals)
+
+
+class NameFirstEnumType(PPEnumFieldType):
+    """an application's enum type (documented hooks overridden, super() called): a column without a modifier
+    shows the names only; 'status/full' and 'status/val' mean what they always mean"""
+
+    def make_desired_cell_ch_chunks(self, value, fmt_modifier, field_palette):
+        return super().make_desired_cell_ch_chunks(value, fmt_modifier or "name", field_palette)
+
+    def get_cell_text_len(self, value, fmt_modifier):
+        return super().get_cell_text_len(value, fmt_modifier or "name")
 
 
 def decode_value(v):
@@ -455,9 +468,34 @@ class NestedValue:
         return str(PrettyPrinter()(self.value, no_color=True))
 
 
+class TransientError(Exception):
+    """raised by a FlakyValue (fault injection: the harness's own exception type)"""
+
+
+REFERENCE_PROCESS = False      # set in the pristine reference process: values there are never flaky
+
+
+class FlakyValue:
+    """a cell value whose text comes from somewhere that is not ready the first time(s) it is asked (a lazily
+    loaded attribute, a backend that timed out): str() raises, later it works.  The caller catches the error and
+    prints again."""
+
+    def __init__(self, value, fails):
+        self.value = value
+        self.left = 0 if REFERENCE_PROCESS else fails
+
+    def __str__(self):
+        if self.left > 0:
+            self.left -= 1
+            raise TransientError("value not ready yet")
+        return str(self.value)
+
+
 def _cell(v):
     if isinstance(v, dict) and set(v) == {"nested"}:
         return NestedValue(v["nested"])
+    if isinstance(v, dict) and set(v) == {"flaky", "fails"}:
+        return FlakyValue(v["flaky"], v["fails"])
     return v
 
 
@@ -669,7 +707,11 @@ def poke(r, what):
         y += "x"
         return str(y)
     if what == "eq":
-        return res == res
+        # a result equals itself and the text it stands for, whichever side it is on
+        c = res.get_ch_text()
+        if not (res == res and res == c and c == res):
+            raise ValueError(f"a result and its own text do not compare equal: {res == res}, {res == c}, {c == res}")
+        return True
     raise ValueError(what)
 
 
